@@ -4,6 +4,7 @@ CONSTANTS
   Dpbs = {4, 8}
   ResizeSet = {1, 2, 3, 4, 8, 10}
   Geos <- OneGeo
+  GdOnly = FALSE
   MaxSteps = 2
   DevTuneMasterOnly = TRUE
   DevFsckIgnoresFeatDiff = FALSE
